@@ -91,6 +91,9 @@ def stress_model():
         # which make the C library rewrite ctx->round for the duration of the call
         lit('rnd', '[2 / 3, a / 7, (a + 0.5) / 3, 1 / 9 + a / 11, floor(a / 7), ceiling(a / 7), decimal(a / 7, 3), floor(-a / 3), '
                    'sum(for i in 1..12 return (a + i) / (i + 6)), sum(for i in 1..12 return floor((a + i) / 3) + ceiling((a + i) / 7))]', inputs=['a']),
+        # a long chain of required decisions: every thread is 150 decisions deep at the same time (anything that counts or stores per-call
+        # nesting in a place shared between calls shows here; seeded change C20_d: a process-wide nesting counter)
+        *[lit('c%d' % i, ('c%d + 1' % (i + 1)) if i < 149 else 'a', inputs=(['a'] if i == 149 else []), decisions=([('c%d' % (i + 1))] if i < 149 else [])) for i in range(150)],
         lit('top', '{n: num, t: tbl, r: rex, f: fib(modulo(abs(floor(a)), 11))}', decisions=['num', 'tbl', 'rex'], knowledge=['fib'], inputs=['a']),
         '<decisionService name="svc" id="s_svc"><variable name="svc"/><outputDecision href="#d_top"/><encapsulatedDecision href="#d_num"/>'
         '<encapsulatedDecision href="#d_tbl"/><encapsulatedDecision href="#d_rex"/><inputData href="#i_a"/><inputData href="#i_s"/></decisionService>',
@@ -106,7 +109,7 @@ def gen_calls(rng, n):
         a = rng.choice([0, 1, 5, 6.5, 7, 9.99, 10, 25, 50, 99, 100, 1001, -3, -0.5, 123456.789]) if rng.random() < 0.7 else round(rng.uniform(-50, 1500), 3)
         s = rng.choice(words)
         d = rng.choice(dates)
-        inv = rng.choice(['num', 'tmp', 'rex', 'tbl', 'top', 'top', 'svc', 'fib', 'rnd', 'rnd', 'trn', 'trn', 'pri', 'pri', 'ord', 'ord'])
+        inv = rng.choice(['num', 'tmp', 'rex', 'tbl', 'top', 'top', 'svc', 'fib', 'rnd', 'rnd', 'trn', 'trn', 'pri', 'pri', 'ord', 'ord', 'c0', 'c0', 'c75'])
         if inv == 'fib':
             ctx = '{n: %d}' % rng.randint(0, 13)
         else:
